@@ -1,0 +1,13 @@
+//go:build verif
+
+package code
+
+// Contracts for the verifier in /verif (comment-only; compiled only with -tags verif).
+
+//@ func Length(op Opcode) (result int)
+//@   modifies nothing
+//@   ensures @C18 length.def: result == (hasOperand(op) ? 3 : 1)
+//@   panics never
+
+//@ func String(op Opcode) (result string)
+//@   panics never
